@@ -66,8 +66,11 @@ class Gen:
         """Names whose UTF-8 form straddles byte 30-34 with multi-byte characters, and ordinary ones."""
         r = self.rng
         c = r.random()
-        if c < 0.25:
+        if c < 0.22:
             return self.text(10)
+        if c < 0.25:
+            # names that are also words of the format or of the library: type names, chunk ids, attribute names
+            return r.choice(["Output", "output", "OUTPUT", "MetaModule", "Sampler", "Amplifier", "SEND", "None", "name", "Module", "Output ", "0"])
         if c < 0.35:
             return ""
         # build to a target byte length around the 32-byte limit
